@@ -365,5 +365,6 @@ def run(ctx):
         for front in ("Valet", "Porter"):
             ctx.floor("cases_%s_%s" % (front, sock), ctx.pick(40, 600))
     ctx.floor("distinct_nontrivial", ctx.pick(150, 2000))
+    for sock in ("plain", "tls"):
         ctx.floor("valet_builds_its_own_servant_%s" % sock, ctx.pick(8, 150))
     ctx.floor("big_body_transfer_longer_than_timeout", ctx.pick(8, 100))
